@@ -147,7 +147,7 @@ class Result:
 
 
 def write_replay(v, idx):
-    d = os.path.join(VERIF, "out", "replays")
+    d = os.path.join(os.environ.get("TFMON_OUT_DIR") or os.path.join(VERIF, "out"), "replays")
     os.makedirs(d, exist_ok=True)
     body = json.dumps(v.to_json(), indent=1, sort_keys=True, default=repr)
     name = f"{v.prop}-{h64(body) % 10**10:010d}-{idx}.json"
@@ -203,7 +203,7 @@ def finish(res, known_keys_hit=()):
         "wall_s": round(wall, 3),
         "violations": len(real_violations),
     }
-    evdir = os.path.join(VERIF, "evidence")
+    evdir = os.environ.get("TFMON_EVIDENCE_DIR") or os.path.join(VERIF, "evidence")
     os.makedirs(evdir, exist_ok=True)
     tmp = os.path.join(evdir, f".{res.prop}.json.tmp")
     with open(tmp, "w") as f:
@@ -243,7 +243,7 @@ def finish(res, known_keys_hit=()):
 def run_sharded(prop, tier, seed, nshards, timeout_s, extra_args=()):
     """Fan out over subprocess workers (no multiprocessing.Pool)."""
     res = Result(prop, tier, seed)
-    outdir = os.path.join(VERIF, "out", "shards")
+    outdir = os.path.join(os.environ.get("TFMON_OUT_DIR") or os.path.join(VERIF, "out"), "shards")
     os.makedirs(outdir, exist_ok=True)
     procs = []
     env = dict(os.environ)
